@@ -22,6 +22,14 @@ import (
 //	        R.<dealer>.<responder>.<sid>.<a|c>.<signer>   response built from scratch (see Sim.AdvResp)
 //	        GR.<k>.<j>.<j2> / PR.<k>.<j>.<j2>             genuine / previous-session response of k about j, Index := j2
 //	        RN.<dealer>                                   dkg.Response without a vss response
+//	        FD.<j>.<i>.<claim> / FR.<k>.<j>.<j2>          deal / response of an earlier session run with FRESH keys (the
+//	                                                      way genPub draws a key per Grouping call)
+//	        O.<member>.<claim>.<sealer>.<variant>[.<j2>]  ORACLE answer: the response a fresh real generator of <member>
+//	                                                      with the SAME long-term key gives to the deal D.<claim>.<sealer>.
+//	                                                      <member>.<variant>. Keys re-used across runs are outside the
+//	                                                      pipeline's key discipline (genPub): such a line demonstrates
+//	                                                      Props/C05Other.lean session_layer_needs_fresh_keys on the real
+//	                                                      code; the joint oracle is not applied to it (c05.go)
 //
 // Output "st=<stage per member> keys=<class per member>".
 func RunSimLine(w []string) (string, *Sim) {
@@ -46,6 +54,9 @@ func RunSimLine(w []string) (string, *Sim) {
 				if s.Prev == nil {
 					s.WithPrev()
 				}
+			}
+			if strings.HasPrefix(kv[1], "F") && s.PrevF == nil {
+				s.WithPrevFresh()
 			}
 		}
 	}
@@ -108,10 +119,13 @@ func (s *Sim) injectSpec(spec string, to int) {
 		d := s.AdvDeal(a(1), a(2), a(3), strings.Join(f[4:], "."))
 		info := s.Sealed[len(s.Sealed)-1]
 		s.InjectDealInfo(to, d, info.Consistent && info.Rcpt == to)
-	case "GD", "PD":
+	case "GD", "PD", "FD":
 		src := s
 		if f[0] == "PD" {
 			src = s.Prev
+		}
+		if f[0] == "FD" {
+			src = s.PrevF
 		}
 		d, ok := src.M[a(1)].deals[a(2)]
 		if !ok {
@@ -122,13 +136,26 @@ func (s *Sim) injectSpec(spec string, to int) {
 		c.SessionId = s.Sid
 		// a genuine (current or earlier) deal of dealer a(1) for member a(2) is a consistent deal when it
 		// is presented to that member under that dealer's index
-		s.InjectDealInfo(to, c, a(2) == to && a(3) == a(1))
+		s.InjectDealInfo(to, c, a(2) == to && a(3) == a(1) && f[0] != "FD")
 	case "R":
 		s.InjectResp(to, s.AdvResp(a(1), a(2), f[3], f[4] == "a", f[5]))
-	case "GR", "PR":
+	case "O": // O.<member>.<claim>.<sealer>.<variant>[.<j2>]: oracle answer (another run with the same key)
+		r := s.OracleAnswer(a(1), a(2), a(3), f[4])
+		if r == nil {
+			return
+		}
+		r.SessionId = s.Sid
+		if len(f) > 5 {
+			r.Index = uint32(a(5))
+		}
+		s.InjectResp(to, r)
+	case "GR", "PR", "FR":
 		src := s
 		if f[0] == "PR" {
 			src = s.Prev
+		}
+		if f[0] == "FR" {
+			src = s.PrevF
 		}
 		r := src.GenuineResp(a(1), a(2))
 		if r == nil {
